@@ -108,7 +108,11 @@ def _get_path(d, key):
     for k in key.split("."):
         if d is None:
             return None
-        d = d.get(k) if isinstance(d, dict) else d[int(k)]
+        if isinstance(d, dict):
+            d = d.get(k)
+        else:
+            i = int(k)
+            d = d[i] if i < len(d) else None
     return d
 
 
